@@ -113,7 +113,8 @@ class MinGenSet():
             if not all(isinstance(constraint, list) for constraint in self.partition_constraints):
                 utils.logger.error(f"{__name__}: partition_constraints must be a list of lists.")
                 raise ValueError("partition_constraints must be a list of lists.")        
-            if not all(sum(constraint) == self.total for constraint in self.partition_constraints):
+            # (float sums depend on the order of the summands: compare up to the solver's tolerance)
+            if not all(abs(sum(constraint) - self.total) <= 1e-9 * max(1, abs(self.total)) for constraint in self.partition_constraints):
                 utils.logger.error(f"{__name__}: The sum of the numbers inside each subset constraint must equal the total value.")
                 raise ValueError("The sum of the numbers inside each subset constraint must equal the total value.")
 
